@@ -42,6 +42,11 @@ type desc struct {
 	V10    bool             `json:"v10,omitempty"`
 	Vals   []string         `json:"vals,omitempty"`
 	Ops    []servlib.Op     `json:"ops,omitempty"`
+	Ident  bool             `json:"ident,omitempty"`  // client: the first response has no framing header (identity body)
+	ReqCl  bool             `json:"reqcl,omitempty"`  // client: the first request has SetConnectionClose
+	Reset  bool             `json:"reset,omitempty"`  // client: MaxConnDuration expired
+	Stream bool             `json:"stream,omitempty"` // client: StreamResponseBody
+	Tail   string           `json:"tail,omitempty"`   // hist: "open" = the client goes silent and the read deadline fires
 }
 
 var connValues = []string{"close", "Close", "CLOSE", "keep-alive", "Keep-Alive", "keep-alive, close", "close, foo", "upgrade",
@@ -89,6 +94,14 @@ func (d *desc) finish() {
 	}
 	d.Sc.EndEOF = true
 	d.Sc.Early = true
+	if d.Tail == "open" {
+		d.Sc.EndEOF = false
+		d.Sc.Early = false
+		d.Sc.Cfg.ReadTimeoutMs = 60
+		for i := range d.Sc.Steps {
+			d.Sc.Steps[i].Wait = false
+		}
+	}
 	if d.StopAt > 0 {
 		for len(d.Sc.Ops) < d.StopAt {
 			d.Sc.Ops = append(d.Sc.Ops, nil)
@@ -179,6 +192,68 @@ func corpus() []desc {
 		c = append(c, hist(servlib.Cfg{}, []servlib.Req{get(), get(), get()}, [][]servlib.Op{nil, {{K: "status", N: st}, {K: "skipbody"}}}))
 		c = append(c, hist(servlib.Cfg{}, []servlib.Req{get(), {Method: "HEAD"}, get()}, [][]servlib.Op{nil, {{K: "status", N: st}, {K: "skipbody"}}}))
 	}
+	// responses the server writes by itself always say close and are followed by the close:
+	// limit rejections, first-byte timeout, incomplete head at the timeout, body too large, truncated body, oversized head
+	for _, sc := range []bool{false, true} {
+		for _, rj := range []string{"conc", "perip"} {
+			d := hist(servlib.Cfg{ServeConn: sc}, []servlib.Req{get()}, nil)
+			d.Sc.Reject = rj
+			d.Sc.Steps[0].Wait = false
+			c = append(c, d)
+		}
+		for _, rm := range []bool{false, true} {
+			d := hist(servlib.Cfg{ServeConn: sc, ReduceMem: rm}, nil, nil)
+			d.Tail = "open"
+			d.finish()
+			c = append(c, d)
+			d = hist(servlib.Cfg{ServeConn: sc, ReduceMem: rm}, []servlib.Req{{Raw: []byte("GET /r1 HTTP/1.1\r\nHost: h\r\nX-Par")}}, nil)
+			d.Tail = "open"
+			d.finish()
+			c = append(c, d)
+		}
+		c = append(c, hist(servlib.Cfg{ServeConn: sc}, []servlib.Req{get(), {Raw: []byte("POST /r2 HTTP/1.1\r\nHost: h\r\nContent-Length: 5000000\r\n\r\n")}, get()}, nil))
+		tb := hist(servlib.Cfg{ServeConn: sc}, []servlib.Req{{Raw: []byte("POST /r1 HTTP/1.1\r\nHost: h\r\nContent-Length: 10\r\n\r\nabc")}}, nil)
+		tb.Tail = "open" // the rest of the body never comes: the read deadline ends the wait
+		tb.finish()
+		c = append(c, tb)
+	}
+	c = append(c, hist(servlib.Cfg{}, []servlib.Req{get(), {Raw: []byte("GET /r2 HTTP/1.1\r\nHost: h\r\nX-Big: " + strings.Repeat("a", 4200) + "\r\n\r\n")}, get()}, nil))
+	// what the handler can do to the response's Connection state besides setting it
+	for _, ops := range [][]servlib.Op{
+		{{K: "close"}, {K: "resetclose"}}, {{K: "close"}, {K: "delconn"}}, {{K: "hdrconn", V: []byte("upgrade")}, {K: "delconn"}},
+		{{K: "close"}, {K: "error", N: 500}}, {{K: "error", N: 404}, {K: "close"}}, {{K: "reqclose"}}, {{K: "timeoutclose"}},
+		{{K: "hdrconn", V: []byte("Close")}, {K: "resetclose"}}, {{K: "resetclose"}}, {{K: "delconn"}, {K: "close"}},
+	} {
+		c = append(c, hist(servlib.Cfg{}, []servlib.Req{get(), get(), get()}, [][]servlib.Op{nil, ops}))
+		c = append(c, hist(servlib.Cfg{ServeConn: true, ReduceMem: true}, []servlib.Req{get10("keep-alive"), get10("keep-alive"), get10("keep-alive")}, [][]servlib.Op{nil, ops}))
+	}
+	// spellings of the request field: name case, no space, padded values, HEAD, obs-fold
+	for _, q := range []servlib.Req{
+		{Conn: []string{"close"}, ConnKey: "connection"}, {Conn: []string{"close"}, ConnKey: "CONNECTION"}, {Conn: []string{"close"}, NoSP: true},
+		{Conn: []string{" close"}}, {Conn: []string{"close  "}}, {Conn: []string{"\tclose\t"}}, {Conn: []string{"keep-alive ,\t close"}},
+		{Method: "HEAD", Conn: []string{"close"}}, {Method: "HEAD"}, {V10: true, Method: "HEAD"},
+		{V10: true, Conn: []string{"Keep-Alive"}, ConnKey: "connection"}, {V10: true, Conn: []string{"keep-alive"}, NoSP: true},
+		{V10: true, Conn: []string{"upgrade, keep-alive"}}, {V10: true, Conn: []string{"upgrade", "keep-alive"}},
+	} {
+		k := get()
+		if q.V10 {
+			k = get10("keep-alive")
+		}
+		c = append(c, hist(servlib.Cfg{}, []servlib.Req{k, q, k}, nil))
+		c = append(c, hist(servlib.Cfg{ServeConn: true, ReduceMem: true}, []servlib.Req{k, q, k}, nil))
+	}
+	// the client's reuse decision
+	for _, v10 := range []bool{false, true} {
+		for _, id := range []bool{false, true} {
+			for _, vs := range [][]string{nil, {"close"}, {"keep-alive"}, {"Keep-Alive, foo"}, {"foo"}} {
+				c = append(c, desc{Op: "client", V10: v10, Ident: id, Vals: vs})
+			}
+		}
+	}
+	for _, vs := range [][]string{nil, {"keep-alive"}, {"close"}} {
+		c = append(c, desc{Op: "client", ReqCl: true, Vals: vs}, desc{Op: "client", Reset: true, Vals: vs},
+			desc{Op: "client", Stream: true, Vals: vs}, desc{Op: "client", Stream: true, V10: true, Vals: vs})
+	}
 	// error responses always close
 	c = append(c, hist(servlib.Cfg{}, []servlib.Req{get(), {Raw: []byte("BAD\x01 / HTTP/1.1\r\n\r\n")}, get()}, nil))
 	return c
@@ -191,7 +266,16 @@ func gen(r *rand.Rand, i int) desc {
 	case 1:
 		return desc{Op: "respflag", V10: r.Intn(2) == 0, Vals: pickVals(r)}
 	case 2:
-		return desc{Op: "client", Vals: pickVals(r)}
+		d := desc{Op: "client", Vals: pickVals(r), V10: r.Intn(3) == 0, Stream: r.Intn(4) == 0}
+		switch r.Intn(6) {
+		case 0:
+			d.ReqCl = true
+		case 1:
+			d.Reset = true
+		case 2:
+			d.Ident = true
+		}
+		return d
 	case 3:
 		n := 1 + r.Intn(4)
 		var ops []servlib.Op
@@ -226,6 +310,15 @@ func gen(r *rand.Rand, i int) desc {
 		}
 		if r.Intn(4) == 0 {
 			q.Conn = pickVals(r)
+			switch r.Intn(6) {
+			case 0:
+				q.ConnKey = hlib.Pick(r, []string{"connection", "CONNECTION", "cOnNeCtIoN"})
+			case 1:
+				q.NoSP = true
+			}
+		}
+		if r.Intn(10) == 0 {
+			q.Method = "HEAD"
 		}
 		if r.Intn(8) == 0 {
 			q.Method = "POST"
@@ -243,6 +336,11 @@ func gen(r *rand.Rand, i int) desc {
 			ops = append(ops, servlib.Op{K: "hdrconn", V: []byte(hlib.Pick(r, connValues))})
 		case 2:
 			ops = append(ops, servlib.Op{K: "close"}, servlib.Op{K: "hdrconn", V: []byte(hlib.Pick(r, connValues))})
+		case 4:
+			ops = append(ops, hlib.Pick(r, []servlib.Op{{K: "close"}, {K: "hdrconn", V: []byte("close, x")}, {K: "hdrconn", V: []byte("upgrade")}}),
+				hlib.Pick(r, []servlib.Op{{K: "resetclose"}, {K: "delconn"}, {K: "error", N: 500}, {K: "reqclose"}}))
+		case 5:
+			ops = append(ops, hlib.Pick(r, []servlib.Op{{K: "reqclose"}, {K: "timeoutclose"}, {K: "resetclose"}, {K: "delconn"}}))
 		case 3:
 			switch r.Intn(4) {
 			case 0:
@@ -317,9 +415,10 @@ func run(d desc) hlib.Case {
 		return hlib.Case{Coq: hlib.App("CRespFlag", hlib.Bool(!d.V10), valsCoq(d.Vals), hlib.Bool(h.ConnectionClose())),
 			Key: keyFor(d.Vals), Sig: fmt.Sprint("respflag", d.V10, d.Vals), Kind: "respflag", Size: len(d.Vals)}
 	case "client":
-		dials := runClient(d.Vals)
-		return hlib.Case{Coq: hlib.App("CClient", valsCoq(d.Vals), hlib.Z(int64(dials))),
-			Key: keyFor(d.Vals), Sig: fmt.Sprint("client", d.Vals), Kind: "client", Size: len(d.Vals)}
+		dials := runClient(d)
+		return hlib.Case{Coq: hlib.App("CClient", hlib.Bool(!d.V10), hlib.Bool(d.Ident), hlib.Bool(d.ReqCl), hlib.Bool(d.Reset), hlib.Bool(d.Stream),
+			valsCoq(d.Vals), hlib.Z(int64(dials))),
+			Key: keyFor(d.Vals), Sig: fmt.Sprint("client", d.V10, d.Ident, d.ReqCl, d.Reset, d.Stream, d.Vals), Kind: "client", Size: len(d.Vals)}
 	case "respset":
 		var h fasthttp.ResponseHeader
 		h.SetNoDefaultContentType(true)
@@ -372,8 +471,19 @@ func run(d desc) hlib.Case {
 	for _, x := range d.Sc.XStatus {
 		xst = append(xst, hlib.Z(int64(x)))
 	}
-	coq := hlib.App("CHist", d.Sc.Cfg.Entry(), d.Sc.Cfg.Coq(), hlib.List(reqs), servlib.OpsCoq(d.Sc.Ops), hlib.List(xst), stop,
-		hlib.HexList(res.Reads), "Eof", hlib.List(wire), hlib.HexList(seen), hlib.Bool(res.Early))
+	ad := "Admit"
+	switch d.Sc.Reject {
+	case "conc":
+		ad = "RejectConcurrency"
+	case "perip":
+		ad = "RejectPerIP"
+	}
+	early := res.Early
+	if d.Tail == "open" {
+		early = res.Closed // the server ends the connection itself when the deadline fires
+	}
+	coq := hlib.App("CHist", d.Sc.Cfg.Entry(), ad, d.Sc.Cfg.Coq(), hlib.List(reqs), servlib.OpsCoq(d.Sc.Ops), hlib.List(xst), stop,
+		hlib.HexList(res.Reads), servlib.TailCoq(d.Tail != "open"), hlib.List(wire), hlib.HexList(seen), hlib.Bool(early))
 	size := 0
 	for _, c := range res.Reads {
 		size += len(c)
@@ -389,12 +499,14 @@ func keyFor(vals []string) string {
 }
 
 // runClient: two requests through a real HostClient; the scripted server answers the first with the given
-// Connection lines and keeps every connection open.  Returns the number of connections the client opened.
-func runClient(vals []string) int {
+// protocol version, framing and Connection lines and keeps every connection open (unless the response is
+// delimited by the close).  Returns the number of connections the client opened.
+func runClient(d desc) int {
 	var dials int32
 	hc := &fasthttp.HostClient{
-		Addr:     "example.test:80",
-		MaxConns: 4,
+		Addr:               "example.test:80",
+		MaxConns:           4,
+		StreamResponseBody: d.Stream,
 		Dial: func(addr string) (net.Conn, error) {
 			n := atomic.AddInt32(&dials, 1)
 			pc := fasthttputil.NewPipeConns()
@@ -407,26 +519,48 @@ func runClient(vals []string) int {
 					}
 					resp := "HTTP/1.1 200 OK\r\nContent-Length: 0\r\n"
 					if first {
-						for _, v := range vals {
+						v := "1.1"
+						if d.V10 {
+							v = "1.0"
+						}
+						resp = "HTTP/" + v + " 200 OK\r\n"
+						if !d.Ident {
+							resp += "Content-Length: 0\r\n"
+						}
+						for _, v := range d.Vals {
 							resp += "Connection: " + v + "\r\n"
 						}
-						first = false
 					}
 					resp += "\r\n"
 					if _, err := c.Write([]byte(resp)); err != nil {
 						return
 					}
+					if first && d.Ident {
+						c.Close() // an identity body ends with the connection
+						return
+					}
+					first = false
 				}
 			}(n == 1, pc.Conn2())
 			return pc.Conn1(), nil
 		},
 	}
+	if d.Reset {
+		hc.MaxConnDuration = time.Nanosecond
+	}
 	for i := 0; i < 2; i++ {
 		req := fasthttp.AcquireRequest()
 		resp := fasthttp.AcquireResponse()
 		req.SetRequestURI("http://example.test/x")
+		if i == 0 && d.ReqCl {
+			req.SetConnectionClose()
+		}
 		if err := hc.DoTimeout(req, resp, 2*time.Second); err != nil {
 			panic(fmt.Sprint("client: ", err))
+		}
+		if d.Stream {
+			resp.Body()            //nolint:errcheck
+			resp.CloseBodyStream() //nolint:errcheck
 		}
 		fasthttp.ReleaseRequest(req)
 		fasthttp.ReleaseResponse(resp)
